@@ -174,6 +174,10 @@ func (s *Server) doMergeKeysCommand(conn redcon.Conn, cmdName string, cmd redcon
 		for _, ret := range results {
 			if v, ok := ret.(int64); ok {
 				cnt += v
+			} else if err, ok := ret.(error); ok {
+				// do not answer a count while a part of the keys failed
+				conn.WriteError("ERR :" + err.Error())
+				return
 			}
 		}
 		conn.WriteInt64(cnt)
